@@ -34,6 +34,19 @@ class FullRig:
         self.n2h: deque = deque()         # frames the NCP wants to send: dict with payload key into self.payloads
         self.ash = NcpSim(win)
         self.ncp = ncp_ezsp.NcpEzsp(version, loop, deliver=self._ncp_ezsp_send, negotiated=False)
+        # the layout the NCP frames each response / callback in is noted when it encodes it (a legacy frame whose ID byte
+        # happens to look like an extended frame-control byte cannot be told apart by its bytes alone)
+        self._enc_fmt = None
+        _orig_encode = self.ncp.encode
+
+        self._fmt_of_bytes: dict[bytes, str] = {}
+
+        def _encode(fmt, *a, **k):
+            data = _orig_encode(fmt, *a, **k)
+            self._fmt_of_bytes[bytes(data)] = fmt        # a callback may be handed over later than it was encoded
+            return data
+        self.ncp.encode = _encode
+        self.payload_fmt: dict[int, str] = {}
         self.payloads: dict[int, bytes] = {}
         self.npl = 1000
         self.tasks: dict[str, asyncio.Task] = {}
@@ -152,6 +165,7 @@ class FullRig:
         """the NCP's EZSP layer hands a response / callback to its ASH layer"""
         key = self.npl = self.npl + 1
         self.payloads[key] = bytes(data)
+        self.payload_fmt[key] = self._fmt_of_bytes.get(bytes(data))
         self._ncp_outs(self.ash.submit(key))
 
     def _ncp_outs(self, outs):
@@ -161,15 +175,8 @@ class FullRig:
             elif o["o"] == "up_data":
                 self.ncp.receive(self.payloads[o["pl"]])
 
-    def _token_of_ncp_payload(self, data: bytes):
-        """EZSP header of a frame the NCP sends: its native layout, or the legacy one for the answer to a legacy query"""
-        nat = self.ncp.native
-        if nat == "legacy5" and len(data) >= 5 and data[2] == 0xFF:
-            lay = nat
-        elif nat == "ext" and len(data) >= 5 and (data[2] & 3) == 1:
-            lay = nat
-        else:
-            lay = "legacy3"
+    def _token_of_ncp_payload(self, data: bytes, lay: str):
+        """EZSP header of a frame the NCP sends, in the layout the NCP framed it with"""
         h = ncp_ezsp.parse_header(lay, data)
         names = self.cmd_by_id.get(lay) or {}
         name = names.get(h[1], f"id{h[1]}")
@@ -246,7 +253,7 @@ class FullRig:
             if g["type"] == "DATA":
                 data = self.payloads[f["pl"]]
                 g["pl"] = list(data)
-                tok["pl"] = self._token_of_ncp_payload(data)
+                tok["pl"] = self._token_of_ncp_payload(data, self.payload_fmt.get(f["pl"]) or self.ncp.native)
             raw = bytearray(ashref.wire(g))
             if fault == "corrupt":
                 k = len(raw) // 2 - (1 if len(raw) > 3 else 0)
